@@ -783,7 +783,20 @@ def explore(ctx):
                        "pandas to_string prints 6 decimals (CLI comparisons to 1e-6)",
                        "mutation of the caller's DataFrame is not asserted either way"]
     quick = ctx.quick
-    restrict = bool(os.environ.get("VERIF_C09_RESTRICT"))
+    # thorough enumerates every subset of every system but triclinic (about 4.8e5 fills of ~16 ms).  Only when a
+    # soft budget was given (--budget) and the estimate does not fit, trigonal7 (2^15) and monoclinic (2^13) are
+    # restricted to |S| within 2 of the sufficiency boundary; this is recorded and exhaustive is set to False.
+    restrict = False
+    if not quick and ctx.deadline is not None:
+        import time
+        est = 0.0
+        for s in L.SYSTEMS:
+            if s == "triclinic":
+                continue
+            t = L.rank_table(s)
+            est += sum(12 if t[m] < bin(m).count("1") else 4 for m in range(len(t))) * 0.016 / max(ctx.nproc, 1)
+        restrict = time.time() + est > ctx.deadline
+        ctx.notes["A_budget"] = {"estimated_wall_s": round(est), "restricted": restrict}
     # ---- A
     cases, counts = [], {}
     complete = True
@@ -809,7 +822,8 @@ def explore(ctx):
     if not complete:
         ctx.exhaustive = False
         ctx.notes["A_not_exhaustive"] = "see A_subsets[*].rule: triclinic is restricted to the layers next to the full set in both tiers" + \
-            ("; the other systems are complete" if not quick and not restrict else "")
+            ("; the other systems are complete" if not quick and not restrict else "") + \
+            ("; --budget too small: trigonal7 and monoclinic restricted to |S| within 2 of the boundary" if restrict else "")
     # ---- B
     bound = 2 if quick else 3
     subsets = {s: named_subsets(s) for s in L.SYSTEMS}
